@@ -673,6 +673,15 @@ example : DomainC exApp (exReq exRoute false) := by
 example : (wsgi plainApp Slots.fresh (exReq (.found { effs := [], res := .returns (.text "héllo".toList) }) false)).fwCL
     = some 6 := by decide +kernel
 
+/-- hypotheses of the emitted form of (d): Content-Length set by the framework, status not 304 -/
+example :
+    let res := wsgi plainApp Slots.fresh (exReq (.found { effs := [], res := .returns (.text "héllo".toList) }) false)
+    res.fwCL = some 6 ∧ res.slots.resp.code ≠ 304 := by decide +kernel
+
+/-- hypothesis of `cast_closer_is_body_source`: leading empty items, then a `bytes` item -/
+example : skipEmpty [Item.empty, Item.bytes [], Item.bytes [104, 105], Item.bytes [33]] =
+    Item.bytes [104, 105] :: [Item.bytes [33]] := rfl
+
 /-- hypotheses of (g): the handler raises, no custom 500 handler -/
 example : handleFlow plainApp (exReq (.found { effs := [], res := .raises }) false) = .exc ∧
     errHandlerFor plainApp 500 = none := ⟨rfl, rfl⟩
